@@ -448,3 +448,38 @@ Lemma revert_legalb_spec b n : revert_legalb b n = true <-> legal b (XRevert n).
 Proof.
   unfold revert_legalb, legal. rewrite Bool.andb_true_iff, !Nat.leb_le. reflexivity.
 Qed.
+
+(* ---------- status of a value write: the limits ---------- *)
+Lemma status_iff (c s : N) :
+  let r := if c <? s then 4%nat else 0%nat in (r = 4%nat <-> c < s) /\ (r = 0%nat <-> s <= c).
+Proof.
+  cbn zeta. destruct (c <? s) eqn:B; [apply N.ltb_lt in B|apply N.ltb_ge in B];
+    split; split; intros; try discriminate; try reflexivity; try lia.
+Qed.
+
+Lemma write_status st k v f :
+  let r := snd (ystep st (XWrite k v f)) in
+  let st' := fst (ystep st (XWrite k v f)) in
+  let x := y_x st in
+  (is_tomb v = true -> r = 1%nat /\ st' = st) /\
+  (is_tomb v = false -> max_key_len < len_n k -> r = 5%nat /\ st' = st) /\
+  (is_tomb v = false -> len_n k <= max_key_len -> x_elim x < len_n k + len_n v -> r = 3%nat /\ st' = st) /\
+  (is_tomb v = false -> len_n k <= max_key_len -> len_n k + len_n v <= x_elim x ->
+     x_wseq (y_x st') = x_wseq x + 1 /\ buf_get (x_b (y_x st')) k = Some v /\
+     (r = 4%nat <-> x_blim x < x_size (y_x st')) /\ (r = 0%nat <-> x_size (y_x st') <= x_blim x)).
+Proof.
+  cbn zeta. cbn [ystep]. split; [|split; [|split]].
+  - intros H. rewrite H. split; reflexivity.
+  - intros H H0. rewrite H. apply N.ltb_lt in H0. rewrite H0. split; reflexivity.
+  - intros H H0 H1. rewrite H. replace (max_key_len <? len_n k) with false by (symmetry; apply N.ltb_ge; exact H0).
+    cbn [xstep]. rewrite H. unfold xwrite. apply N.ltb_lt in H1. rewrite H1. split; reflexivity.
+  - intros H H0 H1. rewrite H. replace (max_key_len <? len_n k) with false by (symmetry; apply N.ltb_ge; exact H0).
+    cbn [xstep]. rewrite H. unfold xwrite.
+    replace (x_elim (y_x st) <? len_n k + len_n v) with false by (symmetry; apply N.ltb_ge; exact H1).
+    destruct (fl_get (x_kf (y_x st)) k); cbn [fst snd];
+      match goal with |- context [if ?c <? ?s then 4%nat else 0%nat] =>
+        pose proof (status_iff c s) as [S4 S0]; cbn zeta in S4, S0; destruct (c <? s) end;
+      cbn [Nat.eqb fst snd y_x x_wseq x_b x_size];
+      (split; [reflexivity|]); (split; [fold (buf_get (write true (x_b (y_x st)) k v) k); rewrite buf_get_write, eqb_refl; reflexivity|]);
+      split; assumption.
+Qed.
